@@ -265,8 +265,11 @@ class Run:
         ev = {"property_id": self.id, "tier": self.tier, "seed": self.seed, "level": self.level,
               "coverage": cov, "assumptions": self.assumptions, "wall_s": round(wall, 1),
               "violations": len(self.violations)}
-        os.makedirs(os.path.join(ROOT, "evidence"), exist_ok=True)
-        with open(os.path.join(ROOT, "evidence", self.id + ".json"), "w") as f:
+        # evidence/<id>.json describes the check of /repo; a run against another working tree (VERIF_REPO: development, seeded
+        # changes) leaves it alone and writes next to its scratch directory instead
+        edir = os.path.join(ROOT, "evidence") if REPO == "/repo" else os.path.join(WORK, "evidence-other-tree")
+        os.makedirs(edir, exist_ok=True)
+        with open(os.path.join(edir, self.id + ".json"), "w") as f:
             json.dump(ev, f, indent=1, default=str)
         for k in self.known_hits:
             log("KNOWN-FINDING: property=%s %s" % (self.id, k.get("what", k["key"])))
